@@ -110,6 +110,7 @@ struct Auto<'a> {
     keep_derives_off: Vec<String>,
     method_rewrites: Vec<(String, String, bool)>,
     path_rewrites: Vec<(String, String)>,
+    expr_rewrites: Vec<(String, String)>,
 }
 
 impl<'a> Auto<'a> {
@@ -223,6 +224,31 @@ impl<'a, 'ast> Visit<'ast> for Auto<'a> {
             let r = self.src.range(m);
             self.push(r, "()", "R1-tracing");
         }
+    }
+
+    fn visit_expr(&mut self, e: &'ast syn::Expr) {
+        if !self.expr_rewrites.is_empty() {
+            let r = self.src.range(e);
+            let t = norm(self.src.slice(r));
+            for (a, b) in self.expr_rewrites.clone() {
+                if t == a {
+                    self.push(r, &b, "R5-expr");
+                    return;
+                }
+            }
+        }
+        syn::visit::visit_expr(self, e);
+    }
+
+    fn visit_expr_closure(&mut self, c: &'ast syn::ExprClosure) {
+        // R19: `|_|` -> `|_vx_unused|` (Verus: only variables are supported as closure parameters)
+        for (n, p) in c.inputs.iter().enumerate() {
+            if let syn::Pat::Wild(w) = p {
+                let r = self.src.range(w);
+                self.push(r, &format!("_vx_unused{}", n), "R19-closure-wildcard");
+            }
+        }
+        syn::visit::visit_expr_closure(self, c);
     }
 
     fn visit_expr_if(&mut self, i: &'ast syn::ExprIf) {
@@ -959,7 +985,7 @@ fn do_extract(args: &BTreeMap<String, String>) -> Result<(), String> {
                     *em.rules.entry("L2-skeleton".to_string()).or_insert(0) += 1;
                     continue;
                 }
-                let mut auto = Auto { src, edits: vec![], errors: vec![], keep_derives_off: take.drop_derives.clone(), method_rewrites: method_rewrites.clone(), path_rewrites: { let mut v = take.path_rewrites.clone(); v.extend(path_rewrites.clone()); v } };
+                let mut auto = Auto { src, edits: vec![], errors: vec![], keep_derives_off: take.drop_derives.clone(), method_rewrites: method_rewrites.clone(), path_rewrites: { let mut v = take.path_rewrites.clone(); v.extend(path_rewrites.clone()); v }, expr_rewrites: take.expr_rewrites.clone() };
                 let mut edits: Vec<Edit> = vec![];
                 let (range, header, footer): ((usize, usize), String, String);
                 match found {
@@ -1006,6 +1032,28 @@ fn do_extract(args: &BTreeMap<String, String>) -> Result<(), String> {
                         header = htext;
                         footer = "}".to_string();
                         fn_edits(src, take, &f.sig, &f.block, &fname_disp, &mut edits, &mut em.missing_anchors)?;
+                        if !take.stub {
+                            if let Some(syn::FnArg::Receiver(rc)) = f.sig.inputs.first() {
+                                if let (Some(m), None) = (&rc.mutability, &rc.reference) {
+                                    // R13: `mut self` -> `self` + `let mut vx_self = self;` and `self` -> `vx_self` in the body
+                                    let r = src.span_range(m.span());
+                                    edits.push(Edit { start: r.0, end: r.1, text: String::new(), rule: "R13-mut-self", label: None, prio: 0 });
+                                    let bo = src.span_range(f.block.brace_token.span.open()).1;
+                                    edits.push(Edit { start: bo, end: bo, text: " let mut vx_self = self;".into(), rule: "R13-mut-self", label: None, prio: -50 });
+                                    struct SelfV<'s> { src: &'s Src, out: Vec<(usize, usize)> }
+                                    impl<'s, 'ast> Visit<'ast> for SelfV<'s> {
+                                        fn visit_expr_path(&mut self, p: &'ast syn::ExprPath) {
+                                            if p.path.is_ident("self") { self.out.push(self.src.range(p)); }
+                                        }
+                                    }
+                                    let mut sv = SelfV { src, out: vec![] };
+                                    sv.visit_block(&f.block);
+                                    for r in sv.out {
+                                        edits.push(Edit { start: r.0, end: r.1, text: "vx_self".into(), rule: "R13-mut-self", label: None, prio: 0 });
+                                    }
+                                }
+                            }
+                        }
                         if take.stub {
                             // keep the signature only: replace the body block
                             let br = src.range(&f.block);
